@@ -83,7 +83,7 @@ def run_case(concepts, case, spec):
             a = ev[k] if k < len(ev) else '<stream ended>'
             b = ev2[k] if k < len(ev2) else '<stream ended>'
             tag = a.split(' -> ')[0].split(' !! ')[0]
-            tag = ''.join(ch for ch in tag.split('(')[0].split('[')[0].split('{')[0] if not ch.isdigit()).strip()
+            tag = ''.join(ch for ch in tag.split('(')[0].split('[')[0].split('{')[0].split(' ')[0] if not ch.isdigit()).strip()
             COL.case = {'first': int(sid), 'count': 1, 'session': int(sid), 'event_index': k,
                         'hashseeds': [ref_seed, hs]}
             COL.violation('offline-stream-compare', f'determinism:{tag}', a[:600], b[:600],
